@@ -154,7 +154,7 @@ def run(ctx):
             "(link cycles) fall back to the implementation's own recording",
             "the command is a deterministic script; its exit status/output are known to the harness",
             "extraction + driver; %d cases re-evaluated by vm_compute" % kn],
-        "evaluations": evals, "distinct_nontrivial": nontrivial,
+        "evaluations": steps_total + len(vreqs), "chains": evals, "distinct_nontrivial": nontrivial,
         "rule": "random tree, 1-4 steps each running a script of create/modify/delete/rename operations, random recording options "
                 "(excludes, line-ending normalisation, stream recording, environment, metadata directory, compact JSON, DSSE, two-phase); "
                 "non-trivial = step whose command changed the recorded tree (materials != products)",
